@@ -32,6 +32,15 @@ type Result struct {
 	Steps      uint64
 	Spawned    []string
 	Unfinished []string // threads abandoned at the end (name@kind)
+	Threads2   []ThreadEvent
+}
+
+// ThreadEvent records the life of one thread in scheduler steps.
+type ThreadEvent struct {
+	ID    int
+	Name  string
+	Start uint64 // step at which it first ran (0 = never)
+	End   uint64 // step at which it finished (0 = never)
 }
 
 type Thread struct {
@@ -71,6 +80,8 @@ type Sched struct {
 	cleanup    []func()
 	enabledBuf []*Thread
 	exited     bool
+	frozen     bool
+	events     []ThreadEvent
 }
 
 var cur *Sched
@@ -95,6 +106,7 @@ func Run(opts Opts, body func(s *Sched)) *Result {
 	t0 := &Thread{id: 0, name: "main", wake: make(chan struct{}, 1)}
 	s.threads = append(s.threads, t0)
 	s.live = append(s.live, t0)
+	s.events = append(s.events, ThreadEvent{ID: 0, Name: "main"})
 	s.cur = t0
 	cur = s
 	go func() {
@@ -151,6 +163,7 @@ func (s *Sched) killOthers(t0 *Thread, record bool) {
 	s.cur = t0
 	s.live = s.live[:0]
 	s.live = append(s.live, t0)
+	s.frozen = false
 }
 
 // KillOthers models process exit seen from thread 0: every other thread is
@@ -194,6 +207,7 @@ func (s *Sched) spawn(name string, f func(), client bool) *Thread {
 	t := &Thread{id: len(s.threads), name: name, wake: make(chan struct{}, 1), fn: f, client: client, kind: "start"}
 	s.threads = append(s.threads, t)
 	s.live = append(s.live, t)
+	s.events = append(s.events, ThreadEvent{ID: t.id, Name: name})
 	s.res.Spawned = append(s.res.Spawned, name)
 	go func() {
 		<-t.wake
@@ -203,6 +217,7 @@ func (s *Sched) spawn(name string, f func(), client bool) *Thread {
 			return
 		}
 		defer s.threadExit(t)
+		s.events[t.id].Start = s.stepCount
 		t.fn()
 	}()
 	if !client {
@@ -224,6 +239,9 @@ func (s *Sched) threadExit(t *Thread) {
 		}
 	}
 	t.done = true
+	if !t.poisoned {
+		s.events[t.id].End = s.stepCount + 1
+	}
 	if t.poisoned {
 		// being unwound by finish(): report back to thread 0's goroutine
 		if !t.selfExit {
@@ -313,6 +331,9 @@ func (s *Sched) die(t *Thread) {
 
 func (s *Sched) enabled(t *Thread) bool {
 	if t.done {
+		return false
+	}
+	if s.frozen && t.id != 0 {
 		return false
 	}
 	if t.cond != nil && !t.cond() {
@@ -496,6 +517,26 @@ func (s *Sched) Drain() {
 	})
 }
 
+// Freeze models "the process exits now" from a client thread: from this moment
+// only thread 0 can run; Parallel returns and thread 0 is expected to call KillOthers.
+func (s *Sched) Freeze() {
+	if s.cur.poisoned {
+		return
+	}
+	s.frozen = true
+	t := s.cur
+	if t.id != 0 {
+		// park forever: hand control to thread 0
+		s.Wait("frozen", func() bool { return false })
+	}
+}
+
+// Unfreeze re-enables scheduling of new threads after KillOthers.
+func (s *Sched) Unfreeze() { s.frozen = false }
+
+// Events returns a copy of the thread life log.
+func (s *Sched) Events() []ThreadEvent { return append([]ThreadEvent(nil), s.events...) }
+
 // Pending reports the number of other live threads.
 func (s *Sched) Pending() int {
 	n := 0
@@ -519,6 +560,9 @@ func (s *Sched) Parallel(fns ...func()) {
 	}
 	s.recording = true
 	s.Wait("join", func() bool {
+		if s.frozen {
+			return true
+		}
 		for _, t := range s.live {
 			if t.id != 0 && !t.done {
 				return false
